@@ -77,7 +77,7 @@ def deconv1dRefusal (o : D1Opts) : Option String :=
 /-- what the caller passes as `PSF` to `Deconvolution2D` -/
 inductive Psf2Arg
   | square            -- a 2-D ndarray with equal sides
-  | nonsquare         -- a 2-D ndarray with different sides: `fftconvolve`/cropping fails at the first use of the model
+  | nonsquare         -- a 2-D ndarray with different sides: the forward output has the wrong size
   | str (s : String)
   | other
   deriving DecidableEq, Repr
@@ -102,8 +102,8 @@ structure D2Opts where
 def isSquareNat (n : Nat) : Bool := n.sqrt * n.sqrt == n
 
 /-- the first exception of `Deconvolution2D.__init__`, in the order of the code; `none`: constructed.
-    An unknown PSF name leaves `P` unbound and a non-square PSF array cannot be applied: both only
-    surface at `y_exact = model@x_exact`, AFTER the phantom has been validated. -/
+    An unknown PSF name leaves `P` unbound: the `NameError` only surfaces at `y_exact = model@x_exact`, AFTER
+    the phantom has been validated; a non-square PSF array is only refused after the noise type was checked. -/
 def deconv2dRefusal (o : D2Opts) : Option String :=
   if (bc2d o.bc.toLower).isNone then some "TypeError" else
   let psfNow : Option String := match o.psf with
@@ -125,10 +125,17 @@ def deconv2dRefusal (o : D2Opts) : Option String :=
     | none =>
       let psfLater : Option String := match o.psf with
         | .str s => if (psfName s.toLower).isNone then some "NameError" else none
-        | .nonsquare => some "ValueError"
         | _ => none
       match psfLater with
       | some e => some e
-      | none => if (noiseType o.noise.toLower).isNone then some "NotImplementedError" else none
+      | none =>
+        match noiseType o.noise.toLower with
+        | none => some "NotImplementedError"
+        | some scaled =>
+          -- a non-square PSF gives exact data of the wrong length: the scaled covariance is refused by the
+          -- geometry check of `Gaussian` (TypeError), the scalar one only when the noise is sampled (ValueError)
+          match o.psf with
+          | .nonsquare => some (if scaled then "TypeError" else "ValueError")
+          | _ => none
 
 end CuqiVerif.C17
